@@ -2,6 +2,7 @@ import Driver.Proto
 import PdtVerif.Model.SeqScore
 import PdtVerif.Model.SeqScoreWalk
 import PdtVerif.Model.SeqScoreGreedy
+import PdtVerif.Model.SeqScoreCache
 import PdtVerif.Spec.SeqScore
 /-! Driver for C07: sequence scores (padded / packed), random walk, distribution wrapper,
 greedy CTC. Every reply carries the algorithmic model's output and the declarative spec. -/
@@ -114,6 +115,17 @@ def c07Packed : Handler := fun c => do
       ("pos", boolJ pos), ("head", boolJ head), ("steps", boolJ steps), ("perm", boolJ perm),
       ("lens", boolJ lensOk)])])
 
+def getOptBool (j : Json) (k : String) : Except String (Option Bool) :=
+  match fieldOpt j k with
+  | none => .ok none
+  | some v => some <$> jsonToBool v
+
+def distOutJ (r : Except DistErr (List (Option Rat))) : Json :=
+  match r with
+  | .ok l => listJ optRatJ l
+  | .error .valueError => strJ "ValueError"
+  | .error .assertion => strJ "AssertionError"
+
 def columnOf (rows : List (List Nat)) (n : Nat) : List Nat := rows.map (fun r => r.getD n 0)
 
 /-- c07.walk: {V, N, eos, max_iters, lm, lm_default, draws: steps×N} -/
@@ -168,7 +180,9 @@ def c07Dist : Handler := fun c => do
   let specLps := values.map (fun ns =>
     let hist := ns.2.map Int.toNat
     Spec.seqScore V eosI (fun t v => lm ns.1 (hist.take t) v) ns.2)
-  let valid := values.map (fun ns => validateSample pinned V eosI T ns.2)
+  -- `log_prob` accepts the value: validation off (`validate_args=False`) or `_validate_sample` passes
+  let va ← getOptBool c "validate_args"
+  let valid := values.map (fun ns => !(validating va) || validateSample pinned V eosI T ns.2)
   let check := values.map (fun ns => supportCheck V eosI T ns.2)
   let (supp, specSupp, mass) ← match T with
     | none => pure (Json.null, Json.null, Json.null)
@@ -211,13 +225,37 @@ def c07Sample : Handler := fun c => do
   -- harness LM ignores the batch index in that case (lm tables are all equal)
   let lps := (List.zip ns rows).map (fun nr => distLogProb lm V eos nr.1 (nr.2.map Int.ofNat))
   let valid := rows.map (fun r => validateSample false V eosI Topt (r.map Int.ofNat))
+  -- the calls the harness makes on one distribution object, through the cache state machine
+  let va ← getOptBool c "validate_args"
+  let walkLp ← match N with
+    | none => do
+      let draws ← getList (jsonToList jsonToNat) c "draws"
+      pure (sampleFlatLp lm V eos M T draws)
+    | some n => do
+      let draws ← getList (jsonToList (jsonToList jsonToNat)) c "draws"
+      pure (sampleBatchedLp lm V eos n T draws)
+  let rowsA := rows.toArray
+  let ops ← match fieldOpt c "trace" with
+    | none => pure []
+    | some t => jsonToList (fun e => do
+        let op ← getStr e "op"
+        if op == "sample" then pure (DistOp.sample (M == 0) rows walkLp)
+        else if op == "clear" then pure DistOp.clearCache
+        else do
+          let idx ← getNatList e "idx"
+          pure (DistOp.logProb (idx.map (fun i => rowsA.getD i [])))) t
+  let traceOf := fun (cache : Bool) =>
+    listJ distOutJ (runDist (distCfg lm V eos Topt N cache va) DistCache.empty ops)
+  -- hypothesis of C07_log_prob_cache, evaluated: the walks' scores are the scores of the rows
+  let scored := walkLp == scoreRows lm V eos N rows
   let inSupp := rows.map (fun r => match Topt with
     | some t => (Spec.support V eos t).contains (padTo t (eos.getD 0) r)
     | none => supportCheck V eosI none (r.map Int.ofNat) && fillAfterEos r (eos.getD 0) (eos.getD 0) == r)
   pure (objJ [
     ("model", objJ [("rows", listJ natsJ rows), ("log_probs", ratsJ lps),
-      ("valid", listJ boolJ valid)]),
-    ("spec", objJ [("in_support", listJ boolJ inSupp)])])
+      ("valid", listJ boolJ valid), ("trace_cached", traceOf true), ("trace_fresh", traceOf false)]),
+    ("spec", objJ [("in_support", listJ boolJ inSupp)]),
+    ("flags", objJ [("scored", boolJ scored)])])
 
 /-- c07.greedy: {V, frames: N×T×V, lens (or null), blank, is_probs} -/
 def c07Greedy : Handler := fun c => do
